@@ -1020,7 +1020,7 @@ def _run_http_producer_turn(
         try:
             while True:
                 # Snapshot the budgets remaining at the start of this iteration.
-                remaining_wire = None if max_bytes is None else max(0, max_bytes - resp_buf.tell())
+                remaining_wire = None if max_bytes is None else max(0, max_bytes - write_sink.tell())
                 remaining_external = (
                     None
                     if max_external_bytes is None or not externalization_enabled
@@ -1081,7 +1081,12 @@ def _run_http_producer_turn(
                 # break after every produce cycle so the client receives
                 # data incrementally.  When ``max_bytes`` is configured,
                 # buffer multiple batches until the HTTP body fills the cap.
-                should_continue = max_bytes is not None and resp_buf.tell() < max_bytes
+                # Measured on ``write_sink``: when this turn compresses into the
+                # stream, ``resp_buf`` only sees what the compressor has flushed
+                # so far (next to nothing), and the turn would run on until the
+                # producer finished.  The sink's position counts the bytes
+                # written into it, a conservative stand-in for the final body.
+                should_continue = max_bytes is not None and write_sink.tell() < max_bytes
                 if not should_continue:
                     # Serialize the cursor into a continuation token.  Only the
                     # cursor: the call token was minted at /init and either the
